@@ -80,23 +80,36 @@ class ListWrapper(typing.MutableSequence[T]):
         i: typing.Union[typing_extensions.SupportsIndex, slice],
         v: typing.Union[T, typing.Iterable[T]],
     ) -> None:
+        # The hooks may themselves edit this list (adding a node that is
+        # already in it moves the node), so positions are never carried
+        # across a hook call: assignment is deletion followed by insertion,
+        # and anything invalid is rejected before the first hook runs.
         if isinstance(i, slice):
             assert isinstance(v, typing.Iterable)
-            indices = range(*i.indices(len(self)))
             values = list(v)
+            start, stop, step = i.indices(len(self))
+            if step != 1:
+                indices = range(start, stop, step)
+                if len(values) != len(indices):
+                    raise ValueError(
+                        "attempt to assign sequence of size %d "
+                        "to extended slice of size %d"
+                        % (len(values), len(indices))
+                    )
+                for index, value in zip(indices, values):
+                    self[index] = value
+                return
+            del self[start : max(start, stop)]
+            for offset, value in enumerate(values):
+                self.insert(start + offset, value)
         elif -len(self._data) <= i.__index__() < len(self._data):
-            indices = range(i.__index__(), i.__index__() + 1)
-            values = [typing.cast(T, v)]
+            index = i.__index__()
+            if index < 0:
+                index += len(self._data)
+            del self[index]
+            self.insert(index, typing.cast(T, v))
         else:
             raise IndexError("list assignment index out of range")
-        for index in indices:
-            self._remove(self._data[index])
-        for value in values:
-            self._add(value)
-        if isinstance(i, slice):
-            self._data[i] = values
-        else:
-            self._data[i] = values[0]
 
     @typing.overload
     def __delitem__(self, i: int) -> None:
@@ -137,6 +150,11 @@ class ListWrapper(typing.MutableSequence[T]):
     def extend(self, other: typing.Iterable[T]) -> None:
         for v in other:
             self.append(v)
+
+    # The mixin reverses by swapping items, which would pass through states
+    # holding one element twice. Membership does not change, so no hooks run.
+    def reverse(self) -> None:
+        self._data.reverse()
 
     # end functions for ABC
     def __str__(self) -> str:
